@@ -18,8 +18,11 @@ fn strategy(tier: Tier, index: u64) -> BoxedStrategy<History> {
         ),
     );
     let names = proptest::sample::subsequence(NAMES.to_vec(), 5).prop_shuffle();
-    (proptest::collection::vec(spec, nmaps), names)
-        .prop_flat_map(move |(specs, names)| {
+    // which maps are opened late (first use instead of at the start), and whether the history
+    // starts by cloning the database handle
+    let lates = (proptest::collection::vec(any::<bool>(), 5), any::<bool>());
+    (proptest::collection::vec(spec, nmaps), names, lates)
+        .prop_flat_map(move |(specs, names, lates)| {
             let n = specs.len();
             let keysets: Vec<BoxedStrategy<Vec<Key>>> = specs
                 .iter()
@@ -42,9 +45,9 @@ fn strategy(tier: Tier, index: u64) -> BoxedStrategy<History> {
                 n_maps: n,
             };
             let p0 = specs[0].1;
-            (Just(specs), Just(names), keysets, ops_strategy(&cfg, 20, p0))
+            (Just(specs), Just(names), Just(lates), keysets, ops_strategy(&cfg, 20, p0))
         })
-        .prop_map(|(specs, names, keysets, ops)| {
+        .prop_map(|(specs, names, lates, keysets, ops)| {
             let mut maps = Vec::new();
             let mut ex = 0;
             for (i, ((kt, params), keys)) in specs.into_iter().zip(keysets.into_iter()).enumerate() {
@@ -56,10 +59,16 @@ fn strategy(tier: Tier, index: u64) -> BoxedStrategy<History> {
                     kt,
                     params: p,
                     keys,
+                    // the first map is always there from the start
+                    late: i > 0 && lates.0[i % 5],
                 });
             }
             // reopen uses the (sanitised) parameters of the first map with a small table
             let rp = maps[0].params;
+            let mut ops: Vec<Op> = ops;
+            if lates.1 {
+                ops.insert(0, Op::CloneDb);
+            }
             let ops = ops
                 .into_iter()
                 .map(|op| match op {
@@ -99,7 +108,7 @@ impl Prop for C11 {
         "C11"
     }
     fn rule(&self) -> String {
-        "2-5 maps of mixed key types in one directory, names drawn from a pool with traps (a, a.key, a.val, a.htx, A, m1, m10, b); seeded random interleaved histories in which ~25% of the calls switch the current map / handle, clone a handle, drop one, re-acquire the map through the db object or through a clone of the db object; every call goes through the currently selected handle and is compared with the model of that map (so an update through one handle must be seen through all others); around every update all other maps are flushed and the bytes of their three files must be unchanged; db-level sync and clean reopen (with child-process verification of all maps) are part of the alphabet. Non-trivial: >= 3 maps, >= 2 key types and a switch between >= 2 live handles of one map; distinct by case digest."
+        "2-5 maps of mixed key types in one directory, names drawn from a pool with traps (a, a.key, a.val, a.htx, A, m1, m10, b); seeded random interleaved histories in which ~25% of the calls switch the current map / handle, clone a handle, drop one, re-acquire the map through the db object or through a clone of the db object; about 40% of the maps are opened late (at their first use, through the most recently cloned database handle, re-acquired later through the original one); every call goes through the currently selected handle and is compared with the model of that map (so an update through one handle must be seen through all others); around every update all other maps are flushed and the bytes of their three files must be unchanged; db-level sync and clean reopen (with child-process verification of all maps) are part of the alphabet. Non-trivial: >= 3 maps, >= 2 key types and a switch between >= 2 live handles of one map; distinct by case digest."
             .to_string()
     }
     fn n_cases(&self, tier: Tier) -> u64 {
